@@ -99,6 +99,243 @@ def orient_comparisons(tree: ast.AST) -> ast.AST:
     return ast.fix_missing_locations(_Orient().visit(tree))
 
 
+_LOG_ROOTS = {"logging", "logger", "log", "_logger", "_log", "LOGGER", "LOG", "warnings"}
+_LOG_METHODS = {"debug", "info", "warning", "warn", "error", "exception", "critical", "log"}
+_PURE_FUNCS = {"len", "str", "repr", "type", "id", "format", "int", "float", "bool", "tuple", "list", "sorted", "getLogger",
+               "join", "shape", "round", "abs", "min", "max", "sum", "isinstance", "hasattr", "getattr"}
+
+
+def _pure_expr(e: ast.AST) -> bool:
+    """no effect on program state when evaluated (names, attributes, constants, formatting, a few pure builtins)"""
+    for x in ast.walk(e):
+        if isinstance(x, ast.Call):
+            f = x.func
+            nm = f.attr if isinstance(f, ast.Attribute) else (f.id if isinstance(f, ast.Name) else None)
+            if nm not in _PURE_FUNCS:
+                return False
+        elif isinstance(x, (ast.NamedExpr, ast.Await, ast.Yield, ast.YieldFrom)):
+            return False
+    return True
+
+
+def _inert(st: ast.stmt) -> bool:
+    """a statement that cannot influence any value the package computes: `pass`, a bare literal, an `assert` of a pure
+    expression (assumed to hold - it is removed by `python -O` anyway), a logging / warnings / print call with pure
+    arguments"""
+    if isinstance(st, ast.Pass):
+        return True
+    if isinstance(st, ast.Expr) and isinstance(st.value, ast.Constant):
+        return True
+    if isinstance(st, ast.Assert):
+        return _pure_expr(st.test) and (st.msg is None or _pure_expr(st.msg))
+    if isinstance(st, ast.Expr) and isinstance(st.value, ast.Call):
+        c = st.value
+        f = c.func
+        if isinstance(f, ast.Name) and f.id == "print":
+            return all(_pure_expr(a) for a in c.args) and all(_pure_expr(k.value) for k in c.keywords if k.arg != "file") \
+                and not any(k.arg == "file" for k in c.keywords)
+        if isinstance(f, ast.Attribute) and f.attr in _LOG_METHODS:
+            root = f.value
+            while isinstance(root, (ast.Attribute, ast.Call)):
+                root = root.value if isinstance(root, ast.Attribute) else root.func
+            if isinstance(root, ast.Name) and root.id in _LOG_ROOTS and _pure_expr(f.value):
+                return all(_pure_expr(a) for a in c.args) and all(_pure_expr(k.value) for k in c.keywords)
+    return False
+
+
+class _StripInert(ast.NodeTransformer):
+    def generic_visit(self, node):
+        super().generic_visit(node)
+        for fld in ("body", "orelse", "finalbody"):
+            b = getattr(node, fld, None)
+            if isinstance(b, list) and b and isinstance(b[0], ast.stmt):
+                doc = b[:1] if (fld == "body" and isinstance(node, (ast.FunctionDef, ast.AsyncFunctionDef, ast.ClassDef, ast.Module))
+                                and isinstance(b[0], ast.Expr) and isinstance(b[0].value, ast.Constant)
+                                and isinstance(b[0].value.value, str)) else []
+                kept = doc + [s for s in b[len(doc):] if not _inert(s)]
+                if not kept and fld == "body":
+                    kept = [b[0] if isinstance(b[0], ast.Pass) else ast.copy_location(ast.Pass(), b[0])]
+                setattr(node, fld, kept)
+        if isinstance(node, ast.Try):
+            for h in node.handlers:
+                kept = [s for s in h.body if not _inert(s)]
+                h.body = kept or [ast.copy_location(ast.Pass(), h.body[0])]
+        return node
+
+
+def strip_inert(tree: ast.AST) -> ast.AST:
+    """Statements that cannot influence a computed value are dropped at load time (see `_inert`), so that a rule about
+    the shape of a body is not disturbed by a logging call, an assertion of an invariant or a stray `pass`."""
+    return _StripInert().visit(tree)
+
+
+def _name_uses(fn: ast.AST, name: str) -> int:
+    return sum(1 for x in ast.walk(fn) if isinstance(x, ast.Name) and x.id == name)
+
+
+class _InlineAdjacent(ast.NodeTransformer):
+    """`t = E; return t` -> `return E` and `t = E; if t:` -> `if E:` when `t` is a plain local that occurs nowhere else
+    in the enclosing function (so the temporary has no other reader and removing it cannot change any value)."""
+    def __init__(self):
+        self.fn_stack = []
+        self.ctx_stack = []
+        self._memo = {}
+
+    def visit_FunctionDef(self, node):
+        self.fn_stack.append(node)
+        saved, self.ctx_stack = self.ctx_stack, []
+        self.generic_visit(node)
+        self.ctx_stack = saved
+        self.fn_stack.pop()
+        return node
+    visit_AsyncFunctionDef = visit_FunctionDef
+
+    def visit_Try(self, node):
+        self.ctx_stack.append(node)
+        self.generic_visit(node)
+        self.ctx_stack.pop()
+        return node
+
+    def visit_With(self, node):
+        self.ctx_stack.append(node)
+        self.generic_visit(node)
+        self.ctx_stack.pop()
+        return node
+
+    def _adjacent_only(self, fn, t):
+        """every load of `t` in `fn` is the whole test of an `if` / the whole value of a `return` that directly follows
+        an assignment `t = E` in the same block: then each definition of `t` has exactly one reader, the next statement"""
+        key = (id(fn), t)
+        if key in self._memo:
+            return self._memo[key]
+        ok_loads = set()
+
+        def blocks(n):
+            for fld in ("body", "orelse", "finalbody"):
+                b = getattr(n, fld, None)
+                if isinstance(b, list) and b and isinstance(b[0], ast.stmt):
+                    yield b
+            if isinstance(n, ast.Try):
+                for h in n.handlers:
+                    yield h.body
+        for n in ast.walk(fn):
+            for b in blocks(n):
+                for a, nx in zip(b, b[1:]):
+                    if isinstance(a, ast.Assign) and len(a.targets) == 1 and isinstance(a.targets[0], ast.Name) and a.targets[0].id == t:
+                        if isinstance(nx, ast.Return) and isinstance(nx.value, ast.Name) and nx.value.id == t:
+                            ok_loads.add(id(nx.value))
+                        elif isinstance(nx, ast.If) and isinstance(nx.test, ast.Name) and nx.test.id == t:
+                            ok_loads.add(id(nx.test))
+        res = True
+        for x in ast.walk(fn):
+            if isinstance(x, ast.Name) and x.id == t:
+                if isinstance(x.ctx, ast.Load) and id(x) not in ok_loads:
+                    res = False
+                elif isinstance(x.ctx, ast.Del):
+                    res = False
+            elif isinstance(x, (ast.Global, ast.Nonlocal)) and t in x.names:
+                res = False
+            elif isinstance(x, ast.arg) and x.arg == t:
+                res = False
+        # stores other than plain single-target assignments (loop targets, with-as, tuple unpacking) keep the name alive
+        for x in ast.walk(fn):
+            if isinstance(x, ast.Name) and x.id == t and isinstance(x.ctx, ast.Store):
+                pass
+        self._memo[key] = res
+        return res
+
+    def _fix(self, body):
+        if not self.fn_stack:
+            return body
+        fn = self.fn_stack[-1]
+        out = []
+        i = 0
+        while i < len(body):
+            s = body[i]
+            nxt = body[i + 1] if i + 1 < len(body) else None
+            if isinstance(s, ast.Assign) and len(s.targets) == 1 and isinstance(s.targets[0], ast.Name) and nxt is not None:
+                t = s.targets[0].id
+                if isinstance(nxt, ast.Return) and isinstance(nxt.value, ast.Name) and nxt.value.id == t \
+                        and not any(isinstance(p_, (ast.Try, ast.With)) for p_ in self.ctx_stack):
+                    # the value defined here can only be read by the return (the path ends there)
+                    nxt.value = s.value
+                    out.append(nxt)
+                    i += 2
+                    continue
+                if isinstance(nxt, ast.If) and isinstance(nxt.test, ast.Name) and nxt.test.id == t and self._adjacent_only(fn, t):
+                    nxt.test = s.value
+                    out.append(nxt)
+                    i += 2
+                    continue
+            out.append(s)
+            i += 1
+        return out
+
+    def generic_visit(self, node):
+        super().generic_visit(node)
+        for fld in ("body", "orelse", "finalbody"):
+            b = getattr(node, fld, None)
+            if isinstance(b, list) and b and isinstance(b[0], ast.stmt):
+                setattr(node, fld, self._fix(b))
+        if isinstance(node, ast.Try):
+            for h in node.handlers:
+                h.body = self._fix(h.body)
+        return node
+
+
+def inline_adjacent_temps(tree: ast.AST) -> ast.AST:
+    return _InlineAdjacent().visit(tree)
+
+
+class _KwToPos(ast.NodeTransformer):
+    """A call of a package function that is identified uniquely by its name and whose keyword names are all parameters
+    of that function gets its leading keyword arguments moved into their positional slots, so that rules see one
+    argument order whether the source binds by position or by name."""
+    def __init__(self, defs):
+        self.defs = defs
+
+    def visit_Call(self, node: ast.Call):
+        self.generic_visit(node)
+        if not node.keywords or any(k.arg is None for k in node.keywords) or any(isinstance(a, ast.Starred) for a in node.args):
+            return node
+        f = node.func
+        name = f.attr if isinstance(f, ast.Attribute) else (f.id if isinstance(f, ast.Name) else None)
+        ds = self.defs.get(name or "", [])
+        if len(ds) != 1:
+            return node
+        d = ds[0]
+        if d.args.vararg or d.args.posonlyargs or any(
+                (isinstance(x, ast.Name) and x.id == "property") or (isinstance(x, ast.Attribute) and x.attr in ("setter", "getter"))
+                for x in d.decorator_list):
+            return node
+        params = [a.arg for a in d.args.args]
+        static = any(isinstance(x, ast.Name) and x.id == "staticmethod" for x in d.decorator_list)
+        if params and params[0] in ("self", "cls") and not static:
+            if not isinstance(f, ast.Attribute):
+                return node
+            params = params[1:]
+        allp = params + [a.arg for a in d.args.kwonlyargs]
+        if any(k.arg not in allp for k in node.keywords) or len(node.args) > len(params):
+            return node
+        kw = {k.arg: k for k in node.keywords}
+        args = list(node.args)
+        while len(args) < len(params) and params[len(args)] in kw:
+            args.append(kw.pop(params[len(args)]).value)
+        node.args = args
+        node.keywords = [k for k in node.keywords if k.arg in kw]
+        return node
+
+
+def keywords_to_positional(trees: List[ast.AST]) -> None:
+    defs: Dict[str, list] = {}
+    for t in trees:
+        for n in ast.walk(t):
+            if isinstance(n, (ast.FunctionDef, ast.AsyncFunctionDef)):
+                defs.setdefault(n.name, []).append(n)
+    for t in trees:
+        _KwToPos(defs).visit(t)
+
+
 class AnalysisError(Exception):
     """Anchor vanished / unparsable file / floor not met: exit 2, never a pass."""
 
@@ -248,13 +485,14 @@ class Repo:
                 try:
                     with open(path, encoding="utf-8") as fh:
                         src = fh.read()
-                    tree = orient_comparisons(ast.parse(src, filename=path))
+                    tree = orient_comparisons(inline_adjacent_temps(strip_inert(ast.parse(src, filename=path))))
                 except (SyntaxError, OSError, UnicodeDecodeError) as exc:
                     raise AnalysisError("cannot parse %s: %s" % (rel, exc))
                 m = Module(mod, path, rel, src, tree)
                 self.modules[mod] = m
         if not self.modules:
             raise AnalysisError("no modules parsed under %s" % pkg_dir)
+        keywords_to_positional([m.node for m in self.modules.values()])
         for m in self.modules.values():
             self._index_module(m)
 
